@@ -1,10 +1,50 @@
-// harness_io.hpp — file-routine verbs (filled in below)
+// harness_io.hpp — helpers for the file-routine verbs: hex, scratch files, label codecs.
 #pragma once
+#include "BaseGraph/fileio.hpp"
 #include "harness_common.hpp"
-static inline bool isIoWriteVerb(const std::string &) { return false; }
-static inline bool isIoLoadVerb(const std::string &) { return false; }
-template <class L, bool UND> struct IoOps {
-    template <class Gr> static bool write(const Gr &, const std::string &, const std::vector<std::string> &, std::string &) { return false; }
+#include <cstdlib>
+#include <fstream>
+#include <unistd.h>
+
+static inline std::string toHex(const std::string &b) {
+    static const char *d = "0123456789abcdef";
+    std::string s;
+    for (unsigned char c : b) { s += d[c >> 4]; s += d[c & 15]; }
+    return s.empty() ? "-" : s;
+}
+static inline bool fromHex(const std::string &h, std::string &out) {
+    out.clear();
+    if (h == "-") return true;
+    if (h.size() % 2) return false;
+    auto v = [](char c) -> int { if (c >= '0' && c <= '9') return c - '0'; if (c >= 'a' && c <= 'f') return c - 'a' + 10; return -1; };
+    for (size_t i = 0; i < h.size(); i += 2) { int a = v(h[i]), b = v(h[i + 1]); if (a < 0 || b < 0) return false; out += (char)(a * 16 + b); }
+    return true;
+}
+static inline std::string scratchPath() {
+    const char *d = getenv("BGH_TMP");
+    std::string dir = d ? d : "/tmp";
+    return dir + "/bgh-" + std::to_string((long)getpid()) + ".dat";
+}
+static inline std::string slurp(const std::string &path) {
+    std::ifstream f(path, std::ios::binary);
+    return std::string((std::istreambuf_iterator<char>(f)), std::istreambuf_iterator<char>());
+}
+static inline void spit(const std::string &path, const std::string &bytes) {
+    std::ofstream f(path, std::ios::binary | std::ios::trunc);
+    f.write(bytes.data(), (std::streamsize)bytes.size());
+}
+
+// text codecs: label <-> text as the documentation suggests (to_string / stoi, identity for strings)
+template <class L> struct TextCodec { static const bool ok = false; };
+template <> struct TextCodec<int> {
+    static const bool ok = true;
+    static std::string to(const int &v) { return std::to_string(v); }
+    static int from(const std::string &s) { return std::stoi(s); }
 };
-struct SlotBase;
-static inline bool ioLoad(const std::string &, const std::vector<std::string> &, std::string &, SlotBase *&, int) { return false; }
+template <> struct TextCodec<std::string> {
+    static const bool ok = true;
+    static std::string to(const std::string &v) { return v; }
+    static std::string from(const std::string &s) { return s; }
+};
+static inline bool isIoWriteVerb(const std::string &v) { return v == "writetext" || v == "writebin"; }
+static inline bool isIoLoadVerb(const std::string &v) { return v == "loadtext" || v == "loadtextnamed" || v == "loadbin" || v == "openfail"; }
